@@ -34,7 +34,7 @@ PROF = gen.Profile(kinds=["region"] * 3 + ["task"] * 3 + ["idle", "mark", "flush
                    steps=(3, 30), modes=("legal",), lint=False, marks=1, ranks=True, breakdown=True)
 
 OBS_MUTS = ["flags", "jumbobit", "jumbosize", "truncate", "truncate-page", "clock", "payload-shape", "byteflip",
-            "insert", "mcv", "dup-event", "header", "longstr"]
+            "insert", "mcv", "dup-event", "header", "longstr", "last-event", "last-event"]
 JSON_MUTS = ["typeconf", "delkey", "number", "nest", "longstr", "slash", "emptyarr", "dupkey", "nonutf8",
              "truncjson", "emptyjson", "cpus", "marks", "require"]
 
@@ -131,6 +131,28 @@ def mutate_obs(data, kind, a, b, c, d):
         body = struct.pack("<I", 1 + d % 50) + bytes([65 + (d % 26)]) * n + (b"\0" if (d >> 8) % 4 else b"")
         new = obs.encode_ev(mcv, e.clock, body, jumbo=True)
         return data[:off] + new + data[off:]
+    if kind == "last-event":
+        # the stream ends on a clean event boundary with one event of a chosen shape:
+        # whatever a handler reads beyond that event's declared bytes is outside the stream
+        sub = b % 6
+        mcvj = ["VYc", "6Yc"][c % 2]
+        k = (c >> 1) % 5
+        if sub == 0:      # well-formed jumbo type event
+            new = obs.encode_ev(mcvj, e.clock, struct.pack("<I", 1 + d % 50) + b"lbl\0", jumbo=True)
+        elif sub == 1:    # jumbo too short for its arguments
+            new = obs.encode_ev(mcvj, e.clock, bytes([1 + d % 255]) * k, jumbo=True)
+        elif sub == 2:    # string argument without terminator
+            n = [1, 3, 8, 100, 2000][k]
+            new = obs.encode_ev(mcvj, e.clock, struct.pack("<I", 1 + d % 50) + bytes([65 + d % 26]) * n, jumbo=True)
+        elif sub == 3:    # a listed event with a payload of some other size
+            mcv = listed()[(d >> 3) % len(listed())]
+            new = obs.encode_ev(mcv, e.clock, bytes([1 + d % 255]) * [0, 2, 3, 4, 7][k])
+        elif sub == 4:    # the event itself stays, nothing follows
+            new = e.raw
+        else:             # a listed event as a jumbo with little data
+            mcv = listed()[(d >> 3) % len(listed())]
+            new = obs.encode_ev(mcv, e.clock, bytes([1 + d % 255]) * [0, 1, 3, 4, 7][k], jumbo=True)
+        return data[:off] + new
     if kind == "payload-shape":
         mcv = listed()[b % len(listed())]
         sizes = [0, 2, 3, 4, 7, 8, 12, 15, 16]
